@@ -5,13 +5,23 @@ package dbSync
 
 // Add-only verification hook for C20 (injected through `go build -overlay`; never part of /repo).
 
-import "github.com/alibaba/RedisShake/redis-shake/dbSync/slot"
+import (
+	"time"
 
-// VerifUpdateSlotTopology runs the start-of-sync source re-discovery (DbSyncer.updateSlotTopology, the first
-// thing Sync() does after counting the retry) of a syncer built around `node`, and returns the node the
-// syncer would then sync from. A failed discovery aborts through log.Panicf.
-func VerifUpdateSlotTopology(node slot.SyncNode) *slot.SyncNode {
+	"github.com/alibaba/RedisShake/redis-shake/dbSync/slot"
+	"github.com/alibaba/RedisShake/redis-shake/metric"
+)
+
+// VerifUpdateSlotTopology runs the first two statements of DbSyncer.Sync — the retry is counted
+// (incrementRetryCounter), then the source is re-discovered (updateSlotTopology) — on a syncer built around `node`
+// that has already been restarted `priorRetries` times, the last time `agedMinutes` ago, and returns the node the syncer
+// would then sync from. A failed discovery aborts through log.Panicf.
+func VerifUpdateSlotTopology(node slot.SyncNode, priorRetries, agedMinutes int) *slot.SyncNode {
+	metric.AddMetric(node.Id)
 	ds := &DbSyncer{id: node.Id, node: &node}
+	ds.fullSyncRetryCounter = priorRetries
+	ds.lastRetry = time.Now().Add(-time.Duration(agedMinutes) * time.Minute)
+	ds.incrementRetryCounter()
 	ds.updateSlotTopology()
 	return ds.node
 }
